@@ -31,6 +31,8 @@ deriving DecidableEq, Repr, Inhabited
 
 inductive Kind where
   | choice | permutation | random | normal | gamma
+  /-- `rng.integers` (the resampling step of seaborn's bootstrap) -/
+  | integers
   /-- `np.random.default_rng()` without a seed: a new generator from OS entropy -/
   | newgen
   /-- torch's process-global generator (pyro sampling, `torch.randperm`) -/
@@ -286,6 +288,17 @@ def cliPrepare (a : Args) : Prog (List Nat) :=
     fromEvents (wrapped a.smoothUnobserved (smootherEvents a.smoother a.smoothN)),
     fromEvents (plateHoldoutEvents a.holdN)]
 
+/-- `analyze_model_evaluation`: the only draws are the bootstrap of the regression band of the `n`
+regression plots (one overall + one per sample), `boots` resampling draws (`rng.integers`) each
+(seaborn's `n_boot`, default 1000), all from the generator `regplot` is given -/
+def analyzeEvents (s : Src) (n boots : Nat) : List Event :=
+  (List.replicate n (rep boots s .integers)).flatten
+
+/-- REGRESSION definition (the tree before fix 1fd9f14, not the code): `--seed` is accepted and
+ignored; every `regplot` makes its own `np.random.default_rng()` (no seed) for the bootstrap -/
+def analyzeEventsOld (n boots : Nat) : List Event :=
+  (List.replicate n (ev .fresh .newgen :: rep boots .fresh .integers)).flatten
+
 /-- the names of the modelled operations -/
 inductive Op where
   | sparseCover | generatePlates | smoothPlates | randomHoldout | plateBalancedHoldout
@@ -296,7 +309,7 @@ inductive Op where
   | gibbsSweep | gibbsSweepNoRng
   | sampleMCMC | sampleVI
   | cliPrepareRetrospective | cliCalculateScores | cliSelectNextPlate | cliTrainModel | cliTrainModelVI
-  | cliEvaluateModel
+  | cliEvaluateModel | cliAnalyzeModelEvaluation
 deriving DecidableEq, Repr, Inhabited
 
 def Op.all : List Op :=
@@ -304,7 +317,7 @@ def Op.all : List Op :=
    .kPerSamplePolicy, .selectNextPlate, .selectNextPlateNoRng, .scoreChunk, .scoreChunkNoRng,
    .sampleMvn, .sampleMvnNoRng, .gibbsSweep, .gibbsSweepNoRng, .sampleMCMC, .sampleVI,
    .cliPrepareRetrospective, .cliCalculateScores, .cliSelectNextPlate, .cliTrainModel, .cliTrainModelVI,
-   .cliEvaluateModel]
+   .cliEvaluateModel, .cliAnalyzeModelEvaluation]
 
 /-- the program of an operation; its value is the list of values drawn (the operation's output is
 a function of the inputs and of this list) -/
@@ -336,6 +349,9 @@ def prog : Op → Args → Prog (List Nat)
   | .cliTrainModelVI, a => fromEvents (sampleVIEvents a.n)
   /- cli/evaluate_model.py:57-90 accepts `--seed` and makes no draw at all -/
   | .cliEvaluateModel, _ => .ret []
+  /- cli/analyze_model_evaluation.py:84-102 after fix 1fd9f14: `rng = get_prng_from_seed_argument(args)` is handed to both
+     predicted-vs-observed scatterplots (plotting.py:32-37, 86-93: `sns.regplot(..., seed=rng)`) -/
+  | .cliAnalyzeModelEvaluation, a => fromEvents (analyzeEvents .supplied a.n a.k)
 
 /-- operations that are NOT claimed: library calls made without a generator (outside the
 property: "the given generator") and the pyro/torch VI model, which ignores its generator (known
@@ -345,12 +361,50 @@ def Op.excluded : Op → Bool
   | .sampleVI | .cliTrainModelVI => true
   | _ => false
 
+/-- cli/argument_parsing.py:59-61 `get_prng_from_seed_argument`: the generator handed to a command
+is `genOfSeed seed` for EVERY value of the argument (no truthiness test: 0 is a seed like any other);
+the OS entropy `ω` is not consulted -/
+def cliGenerator (genOfSeed : Nat → Stream) (seed : Nat) (_ω : Stream) : Stream := genOfSeed seed
+
+/-- REGRESSION definition (seeded change S7-C18, not the code): `if args.seed:` -- the falsy seed 0
+is treated as "no seed" and the generator is made from OS entropy -/
+def cliGeneratorOld (genOfSeed : Nat → Stream) (seed : Nat) (ω : Stream) : Stream :=
+  if seed = 0 then ω else genOfSeed seed
+
 /-- a command-line step: the supplied stream IS the generator built from `--seed`
 (cli/argument_parsing.py:59-61; for train_model: from `(seed, n_chains, chain_index)`,
 sampling.py:45-46) -/
 def runCli (genOfSeed : Nat → Stream) (seed : Nat) (op : Op) (a : Args) (γ ω : Stream) :
     Result (List Nat) :=
-  run (prog op a) ⟨genOfSeed seed, γ, ω⟩
+  run (prog op a) ⟨cliGenerator genOfSeed seed ω, γ, ω⟩
+
+/-- the commands of the model that take `--seed` and are claimed (train_model with the VI model is the known finding) -/
+def Op.isSeededCommand : Op → Bool
+  | .cliPrepareRetrospective | .cliCalculateScores | .cliSelectNextPlate | .cliTrainModel
+  | .cliEvaluateModel | .cliAnalyzeModelEvaluation => true
+  | _ => false
+
+/-! ### regression definitions for object memory and iteration order (NOT the code) -/
+
+/-- REGRESSION (seeded change S5-C18): a scorer object that keeps the sampled triples of its first
+`score()` call (`self._triple_cache`) and, when the key is present, returns them WITHOUT drawing:
+`(value used, events of the call)` and the cache afterwards -/
+def dbalCachedOld (cache : Option Nat) (g : Stream) : (Nat × List Event) × Option Nat :=
+  match cache with
+  | some v => ((v, []), some v)
+  | none => ((g 0, [ev .supplied .choice]), some (g 0))
+
+/-- assign the `i`-th draw of `g` to the `i`-th item of the iteration order; the output is the
+item → value table -/
+def assignInOrder (order : List Nat) (g : Stream) : List (Nat × Nat) :=
+  order.zipIdx.map (fun p => (p.1, g p.2))
+
+/-- the value an item received (`none`: not an item) -/
+def assigned (order : List Nat) (g : Stream) (item : Nat) : Option Nat := (assignInOrder order g).lookup item
+
+/-- the code: `for sample_name in np.unique(names)` -- the iteration order is the SORTED list of the items -/
+def assignSorted (items : List Nat) (g : Stream) : List (Nat × Nat) :=
+  assignInOrder (items.mergeSort (fun a b => decide (a ≤ b))) g
 
 /-- the trace of an operation in the all-zero world (for the driver; by `trace_independent` in
 the lemma file the trace of a G-only operation does not depend on Γ and Ω) -/
